@@ -173,8 +173,11 @@ pub struct Kernel {
     pub net: Net,
     pub policy: Policy,
     pub prio: Vec<u64>,
-    /// Policy::Stall: step number until which each task stays descheduled
+    /// step number until which each task stays descheduled (Policy::Stall and probe-triggered stalls)
     pub paused_until: Vec<u64>,
+    /// cooperative fault points: when the named probe (a log line of the code under test) fires, the
+    /// task that logged it is descheduled for up to `max` steps with probability `per_mille`/1000
+    pub stall_probes: Vec<(String, u32, u32)>,
     pub pct_points: Vec<u64>,
     pub finished: bool,
     pub truncated: bool,
@@ -258,6 +261,7 @@ impl Kernel {
             policy: Policy::Random,
             prio: Vec::new(),
             paused_until: Vec::new(),
+            stall_probes: Vec::new(),
             pct_points: Vec::new(),
             finished: false,
             truncated: false,
@@ -368,6 +372,25 @@ impl Kernel {
     }
     pub fn probe(&mut self, kind: &str) {
         *self.stats.probes.entry(kind.to_string()).or_insert(0) += 1;
+        if !self.stall_probes.is_empty() {
+            let hit = self.stall_probes.iter().find(|(n, _, _)| n == kind).cloned();
+            if let Some((_, per_mille, max)) = hit {
+                if self.sched_rng.below(1000) < per_mille as u64 {
+                    let c = self.last_task;
+                    if c != usize::MAX {
+                        if self.paused_until.len() <= c {
+                            self.paused_until.resize(c + 1, 0);
+                        }
+                        self.paused_until[c] = self.stats.steps + 10 + self.sched_rng.below(max as u64);
+                        self.fault("stall_at_probe");
+                        if self.trace.is_some() {
+                            let (until, steps) = (self.paused_until[c], self.stats.steps);
+                            self.trace_ev(|| format!("stall task {} at probe {} from step {} until step {}", c, kind, steps, until));
+                        }
+                    }
+                }
+            }
+        }
     }
 
     pub fn trace_ev(&mut self, f: impl FnOnce() -> String) {
@@ -516,6 +539,21 @@ impl Kernel {
             debug_assert!(next_t > self.now, "time must advance");
             self.now = next_t.max(self.now + 1);
             self.stats.time_jumps += 1;
+        }
+        if !self.paused_until.is_empty() {
+            // descheduled tasks do not run while somebody else can
+            let steps = self.stats.steps;
+            let awake = cands.iter().filter(|id| self.paused_until.get(**id).copied().unwrap_or(0) <= steps).count();
+            if awake > 0 && awake < cands.len() {
+                let pu = &self.paused_until;
+                cands.retain(|id| pu.get(*id).copied().unwrap_or(0) <= steps);
+            } else if awake == 0 && cands.len() > 1 {
+                // everybody who could run is descheduled: the one whose pause ends first runs
+                let pu = &self.paused_until;
+                let best = *cands.iter().min_by_key(|id| pu.get(**id).copied().unwrap_or(0)).unwrap();
+                cands.clear();
+                cands.push(best);
+            }
         }
         let chosen = match self.policy {
             Policy::Random => cands[self.sched_rng.below(cands.len() as u64) as usize],
